@@ -130,7 +130,9 @@ class SumSegmentTree(SegmentTree):
         while idx < self.capacity:  # while non-leaf
             left = 2 * idx
             right = left + 1
-            if self.tree[left] > upperbound:
+            # Never descend into a subtree without mass: rounding in the running
+            # subtraction can otherwise end in a leaf that was never written
+            if self.tree[left] > upperbound or self.tree[right] <= 0.0:
                 idx = 2 * idx
             else:
                 upperbound -= self.tree[left]
